@@ -410,6 +410,9 @@ def normalise_tree(n):
         if r is not None:
             return r
     if k == "block":
+        if control.beta_local_closures(n):
+            n["stmts"] = normalise_tree(n["stmts"])
+            n["expr"] = normalise_tree(n["expr"]) if n.get("expr") is not None else None
         control.ref_alias(n)
         control.for_from_next_loops(n)
         _distribute_fn_select(n)
